@@ -131,6 +131,540 @@ def _check_same(gtype, want, H, what):
 
 
 # ---------------------------------------------------------------------------
+# (d) kinds of streams: the same text through a stream that cannot seek / tell (a pipe, a FIFO, an object with
+# only the reading or only the writing methods), in one piece or in small chunks.
+#
+#   reading   'noseek'     io.TextIOBase object with read / readline (readlines, iteration derived), nothing else
+#             'chunks'     the same, read(k) and readline(k) return at most `chunk` characters when a size is asked
+#             'pipe'       os.pipe(), read end wrapped with os.fdopen (what sys.stdin is in `cat file | cnfgen ...`)
+#             'pipe-tiny'  the same with a 16 byte buffer
+#             'fifo'       a named pipe in a temporary directory, opened by the harness
+#             'fifo-name'  the path of the named pipe is given and the tree opens it
+#   writing   'writeonly'  io.TextIOBase object with write() only
+#             'pipe' / 'pipe-line'   write end of os.pipe() (block / line buffered), a thread collects the text
+#             'fifo-name'  the path of a named pipe is given and the tree opens it
+#             'spec-save-fifo'       command line graph argument `... save <format> <named pipe>`
+#   entry points for reading: readGraph, <class>.from_file, the command line graph argument `<format> -` with
+#   sys.stdin replaced (or `<format> <named pipe>`), kthlist2pebbling's cli() with sys.stdin replaced.
+
+RKINDS = ['noseek', 'chunks', 'pipe', 'pipe-tiny', 'fifo', 'fifo-name']
+WKINDS = ['stringio', 'writeonly', 'pipe', 'pipe-line', 'fifo-name', 'spec-save-fifo']
+RAPIS = ['readGraph', 'from_file', 'spec', 'k2p']
+_INLINE_PIPE = 16384         # texts up to this size are put into a pipe before the reader starts
+
+
+class _TextSource(io.TextIOBase):
+    """Readable text stream: no seek, no tell (io.UnsupportedOperation from the base class), not a tty."""
+
+    def __init__(self, text, chunk=0):
+        io.TextIOBase.__init__(self)
+        self._text, self._pos, self._chunk = text, 0, chunk
+
+    def readable(self):
+        return True
+
+    def _limit(self, size):
+        if size is None or size < 0:
+            return None
+        return min(size, self._chunk) if self._chunk else size
+
+    def read(self, size=-1):
+        lim = self._limit(size)
+        end = len(self._text) if lim is None else min(len(self._text), self._pos + lim)
+        out = self._text[self._pos:end]
+        self._pos = end
+        return out
+
+    def readline(self, size=-1):
+        lim = self._limit(size)
+        nl = self._text.find('\n', self._pos)
+        end = len(self._text) if nl < 0 else nl + 1
+        if lim is not None:
+            end = min(end, self._pos + lim)
+        out = self._text[self._pos:end]
+        self._pos = end
+        return out
+
+
+class _TextSink(io.TextIOBase):
+    """Writable text stream with write() only."""
+
+    def __init__(self):
+        io.TextIOBase.__init__(self)
+        self.parts = []
+
+    def writable(self):
+        return True
+
+    def write(self, s):
+        if not isinstance(s, str):
+            raise TypeError("write() argument must be str, not {}".format(type(s).__name__))
+        self.parts.append(s)
+        return len(s)
+
+
+def _feed(fd, data):
+    """All of data into fd, then close; a reader that goes away early is not an error of the feeder."""
+    try:
+        view = memoryview(data)
+        while len(view):
+            n = os.write(fd, view[:4096])
+            view = view[n:]
+    except OSError:
+        pass
+    finally:
+        os.close(fd)
+
+
+def _release_fifo(path, thread, flags):
+    """A thread of the harness may still be waiting for the tree to open the other end of the named pipe
+    (when the tree never did): open that end ourselves until the thread is through."""
+    thread.join(0.002)
+    while thread.is_alive():
+        try:
+            fd = os.open(path, flags | os.O_NONBLOCK)
+        except OSError:
+            thread.join(0.005)
+            continue
+        try:
+            if flags == os.O_RDONLY:
+                while thread.is_alive():        # a writer: take what it writes
+                    try:
+                        os.read(fd, 65536)
+                    except OSError:
+                        pass
+                    thread.join(0.005)
+        finally:
+            os.close(fd)                        # a reader: sees the end of the file now
+        thread.join(0.005)
+
+
+@contextlib.contextmanager
+def _source(kind, text, chunk=0):
+    """Yields a stream of the given kind (or, for 'fifo-name', a path) from which `text` can be read once."""
+    import threading
+    try:
+        data = text.encode('utf-8')
+    except UnicodeEncodeError:
+        kind, data = 'noseek', None
+    if kind in ('noseek', 'chunks'):
+        yield _TextSource(text, chunk if kind == 'chunks' else 0)
+        return
+    if kind in ('pipe', 'pipe-tiny'):
+        r, w = os.pipe()
+        thread = None
+        if len(data) <= _INLINE_PIPE:
+            _feed(w, data)
+        else:
+            thread = threading.Thread(target=_feed, args=(w, data), daemon=True)
+            thread.start()
+        f = os.fdopen(r, 'r', buffering=(16 if kind == 'pipe-tiny' else -1), encoding='utf-8')
+        try:
+            yield f
+        finally:
+            f.close()
+            if thread is not None:
+                thread.join(30)
+                if thread.is_alive():
+                    raise RuntimeError("the thread feeding the pipe did not finish")
+        return
+    if kind in ('fifo', 'fifo-name'):
+        with _tmpdir() as tmp:
+            path = os.path.join(tmp, 'graph_fifo')
+            os.mkfifo(path)
+            done = threading.Event()
+
+            def feeder():
+                _feed(os.open(path, os.O_WRONLY), data)       # waits for a reader
+                # safety net: somebody waiting for a second writer on this path would wait for ever
+                while not done.wait(20):
+                    try:
+                        os.close(os.open(path, os.O_WRONLY | os.O_NONBLOCK))
+                    except OSError:
+                        pass
+
+            thread = threading.Thread(target=feeder, daemon=True)
+            thread.start()
+            f = None
+            try:
+                if kind == 'fifo':
+                    f = open(path, 'r', encoding='utf-8')
+                    yield f
+                else:
+                    yield path
+            finally:
+                done.set()
+                if f is not None:
+                    f.close()
+                _release_fifo(path, thread, os.O_RDONLY)
+        return
+    raise ValueError("unknown kind of input stream in case: {}".format(kind))
+
+
+def _read_stream(kind, api, gtype, fmt, text, chunk=0):
+    """The graph the tree reads from `text` given through a stream of that kind at that entry point."""
+    from cnfgen.graphs import readGraph
+    from cnfgen.clitools.graph_args import make_graph_from_spec
+    import cnfgen.clitools.msg as msg
+    with _source(kind, text, chunk) as src:
+        if api == 'readGraph':
+            return readGraph(src, gtype, fmt)
+        if api == 'from_file':
+            return _classes()[gtype].from_file(src, fmt)
+        if api == 'spec' and kind == 'fifo-name':
+            msg._prefix = ''
+            return make_graph_from_spec(gtype, [fmt, src])
+        if api == 'k2p' and kind == 'fifo-name':
+            import importlib
+            kthlist2pebbling = importlib.import_module('cnfgen.clitools.kthlist2pebbling')
+            msg._prefix = ''
+            try:
+                return kthlist2pebbling.cli(['kthlist2pebbling', '-q', '-i', src], mode='formula')
+            finally:
+                msg._prefix = ''
+        old_stdin = sys.stdin
+        sys.stdin = src
+        try:
+            msg._prefix = ''
+            if api == 'spec':
+                return make_graph_from_spec(gtype, [fmt, '-'])
+            if api == 'k2p':
+                import importlib
+                kthlist2pebbling = importlib.import_module('cnfgen.clitools.kthlist2pebbling')
+                return kthlist2pebbling.cli(['kthlist2pebbling', '-q'], mode='formula')
+            raise ValueError("unknown entry point in case: {}".format(api))
+        finally:
+            sys.stdin = old_stdin
+            msg._prefix = ''
+
+
+def _write_stream(kind, G, gtype, fmt):
+    """The text the tree writes for G into a destination of that kind."""
+    import threading
+    from cnfgen.graphs import writeGraph
+    from cnfgen.clitools.graph_args import make_graph_from_spec
+    if kind == 'stringio':
+        buf = io.StringIO()
+        writeGraph(G, buf, gtype, fmt)
+        return buf.getvalue()
+    if kind == 'writeonly':
+        sink = _TextSink()
+        writeGraph(G, sink, gtype, fmt)
+        return ''.join(sink.parts)
+    got = []
+    if kind in ('pipe', 'pipe-line'):
+        r, w = os.pipe()
+
+        def collect():
+            with os.fdopen(r, 'r', encoding='utf-8', newline='') as f:
+                got.append(f.read())
+
+        thread = threading.Thread(target=collect, daemon=True)
+        thread.start()
+        f = os.fdopen(w, 'w', buffering=(1 if kind == 'pipe-line' else -1), encoding='utf-8')
+        try:
+            writeGraph(G, f, gtype, fmt)
+        finally:
+            f.close()
+            thread.join(30)
+        if thread.is_alive() or not got:
+            raise RuntimeError("the thread reading the pipe did not finish")
+        return got[0]
+    if kind in ('fifo-name', 'spec-save-fifo'):
+        with _tmpdir() as tmp:
+            path = os.path.join(tmp, 'saved_fifo')
+            os.mkfifo(path)
+
+            def collect():
+                with open(path, 'r', encoding='utf-8', newline='') as f:     # waits for the writer
+                    got.append(f.read())
+
+            thread = threading.Thread(target=collect, daemon=True)
+            thread.start()
+            try:
+                if kind == 'fifo-name':
+                    writeGraph(G, path, gtype, fmt)
+                else:
+                    # the graph argument of the command line: the graph read from a regular file, saved to the pipe
+                    p = os.path.join(tmp, 'regular_file')
+                    with open(p, 'w', encoding='utf-8') as f:
+                        writeGraph(G, f, gtype, fmt)
+                    make_graph_from_spec(gtype, [fmt, p, 'save', fmt, path])
+            finally:
+                _release_fifo(path, thread, os.O_WRONLY)
+        if not got:
+            raise RuntimeError("the thread reading the named pipe did not finish")
+        return got[0]
+    raise ValueError("unknown kind of output stream in case: {}".format(kind))
+
+
+def _pebbling_clauses(want):
+    """Clauses of the pebbling formula of a dag, variable v = vertex v (cnfgen/families/pebbling.py: one clause
+    'predecessors imply v' per vertex in vertex order, followed by 'not v' when v has no successor)."""
+    n = want['n']
+    pred = {v: [] for v in range(1, n + 1)}
+    out = {v: 0 for v in range(1, n + 1)}
+    for u, v in want['edges']:
+        pred[v].append(u)
+        out[u] += 1
+    cls = []
+    for v in range(1, n + 1):
+        cls.append([-p for p in sorted(pred[v])] + [v])
+        if out[v] == 0:
+            cls.append([-v])
+    return cls
+
+
+def _dimacs_clauses(text):
+    """(number of variables, clauses) of a DIMACS CNF text; None when it is not one."""
+    header, cls = None, []
+    for l in text.splitlines():
+        if not l.strip() or l.startswith('c'):
+            continue
+        t = l.split()
+        if t[0] == 'p':
+            if header is not None or len(t) != 4 or t[1] != 'cnf':
+                return None
+            header = (int(t[2]), int(t[3]))
+            continue
+        try:
+            lits = [int(x) for x in t]
+        except ValueError:
+            return None
+        if not lits or lits[-1] != 0:
+            return None
+        cls.append(lits[:-1])
+    if header is None or header[1] != len(cls):
+        return None
+    return header[0], cls
+
+
+def _check_pebbling(want, nvars, clauses, what):
+    exp = _pebbling_clauses(want)
+    if nvars != want['n'] or sorted(sorted(c) for c in clauses) != sorted(sorted(c) for c in exp):
+        raise Violation("{}: the pebbling formula has {} variables and clauses {} instead of {} variables and {}: "
+                        "another graph was read".format(what, nvars, clauses, want['n'], exp), signature='stream-formula')
+
+
+def run_stream(case):
+    """Round trip through non-seekable streams: written into a destination of kind `wstream`, read from a
+    source of kind `rstream` at the entry point `rapi`."""
+    from cnfgen.graphs import readGraph, supported_graph_formats
+    gtype, fmt = case['gtype'], case['fmt']
+    rkind, wkind, api, chunk = case['rstream'], case['wstream'], case['rapi'], case.get('chunk', 0)
+    if gtype == 'bipartite':
+        want = R.make_desc(gtype, L=case['L'], R=case['R'], edges=case['edges'])
+    else:
+        want = R.make_desc(gtype, n=case['n'], edges=case['edges'])
+    if fmt not in supported_graph_formats()[gtype]:
+        if fmt == 'dot':
+            return Outcome(labels=['dot-not-available'], nontrivial=False)
+        raise Violation("format {} is not offered for {} graphs".format(fmt, gtype), signature='rt-formats')
+    if api == 'k2p' and not (gtype == 'dag' and fmt == 'kthlist'):
+        api = 'readGraph'
+    G = _build(gtype, want, case.get('name'))
+    what = "{} graph {} in {} format".format(gtype, {k: want[k] for k in want if k != 'edges'}, fmt)
+    labels = ['{}/{}'.format(gtype, fmt), 'route:stream', 'wstream:' + wkind, 'rstream:' + rkind, 'rapi:' + api]
+    labels += _shape_labels(gtype, want)
+    # -- writing
+    w_what = "{} written into a destination of kind '{}'".format(what, wkind)
+    try:
+        with _quiet():
+            text = _write_stream(wkind, G, gtype, fmt)
+            # the text means the graph for the reader of the tree on StringIO ...
+            H = readGraph(io.StringIO(text), gtype, fmt)
+    except ValueError as e:
+        raise Violation("{}: {}({})".format(w_what, type(e).__name__, e), signature='stream-write-rejected')
+    _check_same(gtype, want, H, w_what + ', the text read back from StringIO')
+    if fmt in R.INHOUSE[gtype]:
+        # ... and for the independent reference reader
+        ref = R.ref_read(fmt, gtype, text)
+        if ref.status == 'invalid' or ref.graph != want:
+            raise Violation("{}: the text written, {!r}, does not describe the graph {} for the reference reader ({} {})".format(
+                w_what, text, want, ref.status, ref.graph if ref.graph is not None else ref.why),
+                signature='stream-written-text')
+        labels.append('written-text-' + ref.status)
+    # -- reading
+    r_what = "{} (text {!r}) read from a source of kind '{}'{} through {}".format(
+        what, text if len(text) < 400 else text[:400] + '...', rkind,
+        ' (chunks of {})'.format(chunk) if rkind == 'chunks' else '', api)
+    try:
+        with _quiet():
+            H = _read_stream(rkind, api, gtype, fmt, text, chunk)
+    except ValueError as e:
+        raise Violation("{}: a text that is accepted from StringIO is rejected with {}({})".format(
+            r_what, type(e).__name__, e), signature='stream-read-rejected')
+    if api == 'k2p':
+        _check_pebbling(want, H.number_of_variables(), [list(c) for c in H.clauses()], r_what)
+    else:
+        _check_same(gtype, want, H, r_what)
+    return Outcome(labels=labels, nontrivial=len(want['edges']) >= 1 and R.desc_order(want) >= 3)
+
+
+_CHILD_RW = ("import sys, json; from cnfgen.graphs import readGraph, writeGraph; a = json.loads(sys.argv[1]); "
+             "G = readGraph(sys.stdin, a['gtype'], a['fmt']); writeGraph(G, sys.stdout, a['gtype'], a['ofmt'])")
+
+
+def run_stream_subprocess(case):
+    """A real child process whose standard input and output are pipes.
+    tool 'readwrite': readGraph(sys.stdin) + writeGraph(sys.stdout) in the child, the text that comes back must
+    be the graph (other format allowed); 'cnfgen-peb' / 'kthlist2pebbling': the formula printed must be the
+    pebbling formula of the graph; 'cnfgen-domset': the formula printed must be the one the tool prints, in this
+    process, for the same text in a regular file."""
+    from vlib import cli
+    from cnfgen.graphs import readGraph, supported_graph_formats
+    gtype, fmt, tool = case['gtype'], case['fmt'], case['tool']
+    if gtype == 'bipartite':
+        want = R.make_desc(gtype, L=case['L'], R=case['R'], edges=case['edges'])
+    else:
+        want = R.make_desc(gtype, n=case['n'], edges=case['edges'])
+    ofmt = case.get('ofmt', fmt)
+    if fmt not in supported_graph_formats()[gtype] or ofmt not in supported_graph_formats()[gtype]:
+        return Outcome(labels=['dot-not-available'], nontrivial=False)
+    if fmt in R.INHOUSE[gtype]:
+        text = R.write_inhouse(fmt, gtype, want, case.get('style', 0))
+        if R.ref_read(fmt, gtype, text).status != 'valid':
+            text = R.write_inhouse(fmt, gtype, want, 0)
+    else:
+        with _quiet():
+            text = _write_stream('stringio', _build(gtype, want, None), gtype, fmt)
+    what = "child process `{}` fed the {} text {!r} ({} graph {}) through a pipe".format(tool, fmt, text, gtype, want)
+    labels = ['route:subprocess', 'tool:' + tool, '{}/{}'.format(gtype, fmt)] + _shape_labels(gtype, want)
+
+    def failed(code, err):
+        tail = err.strip().splitlines()[-1] if err.strip() else ''
+        if 'Traceback' in err and 'cnfgen' not in err:
+            raise RuntimeError("child process failed outside the tree: " + err[-1500:])
+        raise Violation("{}: exit status {} and message {!r}; the same text is accepted from a regular file".format(
+            what, code, tail), signature='subprocess-rejected')
+
+    if tool == 'readwrite':
+        env = {k: v for k, v in os.environ.items()}
+        env.update(PYTHONPATH=os.environ.get('VERIF_REPO', '/repo'), PYTHONHASHSEED='0', PYTHONWARNINGS='ignore')
+        arg = json.dumps({'gtype': gtype, 'fmt': fmt, 'ofmt': ofmt})
+        p = subprocess.run([sys.executable] + (['-O'] if sys.flags.optimize else []) + ['-c', _CHILD_RW, arg],
+                           input=text, text=True, stdout=subprocess.PIPE, stderr=subprocess.PIPE,
+                           cwd=os.environ.get('VERIF_REPO', '/repo'), env=env, timeout=300)
+        if p.returncode != 0:
+            failed(p.returncode, p.stderr)
+        back = p.stdout
+        if ofmt in R.INHOUSE[gtype]:
+            ref = R.ref_read(ofmt, gtype, back)
+            if ref.status == 'invalid' or ref.graph != want:
+                raise Violation("{}: the {} text it wrote to its standard output, {!r}, is not that graph for the "
+                                "reference reader ({} {})".format(what, ofmt, back, ref.status,
+                                                                  ref.graph if ref.graph is not None else ref.why),
+                                signature='subprocess-wrong-graph')
+        try:
+            with _quiet():
+                H = readGraph(io.StringIO(back), gtype, ofmt)
+        except ValueError as e:
+            raise Violation("{}: the {} text it wrote to its standard output, {!r}, is rejected: {}".format(
+                what, ofmt, back, e), signature='subprocess-wrong-graph')
+        _check_same(gtype, want, H, what + ", the {} text written to its standard output".format(ofmt))
+        labels.append('out:' + ofmt)
+    elif tool in ('cnfgen-peb', 'kthlist2pebbling'):
+        if tool == 'cnfgen-peb':
+            r = cli.run_subprocess('cnfgen', ['-q', 'peb', fmt, '-'], stdin_text=text)
+        else:
+            r = cli.run_subprocess('kthlist2pebbling', ['-q'], stdin_text=text)
+        if r.code != 0:
+            failed(r.code, r.err)
+        parsed = _dimacs_clauses(r.out)
+        if parsed is None:
+            raise Violation("{}: the output is not a DIMACS formula: {!r}".format(what, r.out[:600]),
+                            signature='subprocess-output')
+        _check_pebbling(want, parsed[0], parsed[1], what)
+    elif tool == 'cnfgen-domset':
+        with _tmpdir() as tmp:
+            path = os.path.join(tmp, 'regular.' + fmt)
+            with open(path, 'w', encoding='utf-8') as f:
+                f.write(text)
+            ref = cli.run_main('cnfgen', ['-q', 'domset', case.get('d', 2), fmt, path])
+        if ref.code != 0 or ref.exc is not None:
+            raise Violation("`cnfgen domset {} {} FILE` fails on a regular file with the text {!r}: {} {!r}".format(
+                case.get('d', 2), fmt, text, ref.err[-300:], ref.exc), signature='subprocess-reference')
+        r = cli.run_subprocess('cnfgen', ['-q', 'domset', case.get('d', 2), fmt, '-'], stdin_text=text)
+        if r.code != 0:
+            failed(r.code, r.err)
+        a, b = _dimacs_clauses(r.out), _dimacs_clauses(ref.out)
+        if a is None or a != b:
+            raise Violation("{}: the formula printed differs from the one printed for the same text in a regular "
+                            "file: {!r} instead of {!r}".format(what, r.out[:600], ref.out[:600]),
+                            signature='subprocess-formula')
+    else:
+        raise ValueError("unknown tool in case: {}".format(tool))
+    return Outcome(labels=labels, nontrivial=len(want['edges']) >= 1 and R.desc_order(want) >= 3)
+
+
+_STREAM_GRAPHS = {
+    # a graph with more than ten vertices whose last vertex is isolated, a small one, one without edges
+    'simple': [{'n': 12, 'edges': [[1, 2], [1, 11], [2, 10], [3, 4], [10, 11], [5, 9]]},
+               {'n': 4, 'edges': [[1, 3], [2, 3], [3, 4]]}, {'n': 3, 'edges': []}, {'n': 0, 'edges': []}],
+    'digraph': [{'n': 12, 'edges': [[1, 2], [11, 1], [2, 10], [4, 3], [10, 11], [5, 5], [9, 2]]},
+                {'n': 4, 'edges': [[3, 1], [2, 3], [3, 4], [4, 3]]}, {'n': 2, 'edges': []}, {'n': 0, 'edges': []}],
+    'dag': [{'n': 12, 'edges': [[1, 2], [1, 11], [2, 10], [3, 4], [10, 11], [5, 9], [2, 11]]},
+            {'n': 4, 'edges': [[1, 3], [2, 3], [3, 4]]}, {'n': 3, 'edges': []}, {'n': 0, 'edges': []}],
+    'bipartite': [{'L': 3, 'R': 11, 'edges': [[1, 1], [1, 11], [2, 10], [3, 2], [3, 10]]},
+                  {'L': 11, 'R': 2, 'edges': [[1, 1], [10, 2], [11, 1], [4, 2]]},
+                  {'L': 2, 'R': 2, 'edges': [[1, 2], [2, 1]]}, {'L': 0, 'R': 3, 'edges': []}],
+}
+
+
+def _stream_combos(gtype, fmt):
+    out = []
+    for rk in RKINDS:
+        for api in RAPIS:
+            if api == 'k2p' and not (gtype == 'dag' and fmt == 'kthlist'):
+                continue
+            out.append((rk, api))
+    return out
+
+
+def enum_streams(tier):
+    """Every graph type x format x kind of source x entry point, the kinds of destination in rotation, on fixed
+    graphs; and the cases with a real child process."""
+    k = 0
+    for gtype in R.TYPES:
+        for fmt in FORMATS[gtype]:
+            graphs = _STREAM_GRAPHS[gtype] if tier == 'thorough' else _STREAM_GRAPHS[gtype][:2]
+            for gi, g in enumerate(graphs):
+                for rk, api in _stream_combos(gtype, fmt):
+                    k += 1
+                    if fmt == 'dot' and tier == 'quick' and (k % 6 or gi):
+                        continue            # reading DOT costs 50 ms: one combination in six, on one graph
+                    if api == 'k2p' and tier == 'quick' and gi:
+                        continue
+                    c = dict(g)
+                    c.update(gtype=gtype, fmt=fmt, route='stream', name=None, rstream=rk, rapi=api,
+                             wstream=WKINDS[k % len(WKINDS)], chunk=1 + k % 7)
+                    yield c
+    # real child processes: a handful in the quick tier
+    kid = 0
+    for gtype in R.TYPES:
+        fmts = FORMATS[gtype] if tier == 'thorough' else [FORMATS[gtype][(R.TYPES.index(gtype)) % 2 * 3]]
+        for fi, fmt in enumerate(fmts):
+            for gi, g in enumerate(_STREAM_GRAPHS[gtype][:2 if tier == 'thorough' else 1]):
+                kid += 1
+                c = dict(g)
+                c.update(gtype=gtype, fmt=fmt, route='subprocess', tool='readwrite', style=(kid * 5) % 64,
+                         ofmt=FORMATS[gtype][(fi + kid) % 4] if tier == 'thorough' else
+                         [f for f in FORMATS[gtype] if f != 'dot'][kid % 3])
+                yield c
+    dags = _STREAM_GRAPHS['dag'][:3 if tier == 'thorough' else 1]
+    for gi, g in enumerate(dags):
+        for tool in ('cnfgen-peb', 'kthlist2pebbling'):
+            c = dict(g)
+            c.update(gtype='dag', fmt='kthlist', route='subprocess', tool=tool, style=gi)
+            yield c
+    for gi, g in enumerate(_STREAM_GRAPHS['simple'][:3 if tier == 'thorough' else 1]):
+        for fmt in (['dimacs', 'kthlist', 'gml'] if tier == 'thorough' else ['dimacs']):
+            c = dict(g)
+            c.update(gtype='simple', fmt=fmt, route='subprocess', tool='cnfgen-domset', d=3, style=gi)
+            yield c
+
+
+# ---------------------------------------------------------------------------
 # (a) round trip
 
 def _roundtrip_routes(G, gtype, fmt, route, cls, results):
@@ -185,6 +719,10 @@ def _roundtrip_routes(G, gtype, fmt, route, cls, results):
 
 def run_roundtrip(case):
     from cnfgen.graphs import supported_graph_formats
+    if case['route'] == 'stream':
+        return run_stream(case)
+    if case['route'] == 'subprocess':
+        return run_stream_subprocess(case)
     gtype, fmt, route = case['gtype'], case['fmt'], case['route']
     name = case.get('name')
     if gtype == 'bipartite':
@@ -272,13 +810,30 @@ def strat_graph(draw, gtype):
     return c
 
 
+_ROUTE_ST = st.sampled_from(ROUTES + ['stream', 'stream', 'stream'])
+_STREAM_X = st.integers(0, 10 ** 6)
+
+
 @st.composite
 def strat_roundtrip(draw):
     gtype = draw(st.sampled_from(R.TYPES))
     c = draw(strat_graph(gtype))
     c['fmt'] = draw(st.sampled_from(FORMATS[gtype]))
-    c['route'] = draw(st.sampled_from(ROUTES))
+    c['route'] = draw(_ROUTE_ST)
     c['name'] = draw(st.sampled_from(FIXED_NAMES) | st.text(alphabet=NAME_ALPHABET, max_size=20))
+    if c['route'] == 'stream':
+        x = draw(_STREAM_X)
+        if c['fmt'] == 'dot' and x % 4:
+            c['fmt'] = 'kthlist'                # reading DOT costs 50 ms: a quarter of the draws
+        x //= 4
+        c['rstream'] = RKINDS[x % len(RKINDS)]
+        x //= len(RKINDS)
+        c['wstream'] = WKINDS[x % len(WKINDS)]
+        x //= len(WKINDS)
+        apis = RAPIS if (gtype == 'dag' and c['fmt'] == 'kthlist') else RAPIS[:3]
+        c['rapi'] = apis[x % len(apis)]
+        x //= len(apis)
+        c['chunk'] = 1 + x % 9
     return c
 
 
@@ -304,6 +859,8 @@ def enum_roundtrip(tier):
                 for mask in range(1 << len(P)):
                     yield {'gtype': 'bipartite', 'L': L, 'R': Rr,
                            'edges': [p for i, p in enumerate(P) if (mask >> i) & 1]}
+    for c in enum_streams(tier):
+        yield c
     for c in cases():
         for fmt in FORMATS[c['gtype']]:
             d = dict(c)
@@ -323,11 +880,27 @@ def run_text(case):
     if R.too_big(text):
         return Outcome(labels=['skipped-too-big'], nontrivial=False)
     ref = R.ref_read(fmt, gtype, text)
+    reader = how = None
+    stream = case.get('stream')
+    if stream:
+        # the text goes to the tree through a stream that cannot seek; the oracle stays the reference reader
+        skind, sapi, chunk = stream
+        if sapi == 'from_file' and gtype == 'dag':
+            sapi = 'readGraph'                  # from_file has no 'dag' type
+        how = "through {} from a source of kind '{}'{}".format(sapi, skind, ' (chunks of {})'.format(chunk)
+                                                               if skind == 'chunks' else '')
+
+        def reader(t):
+            return _read_stream(skind, sapi, gtype, fmt, t, chunk)
     try:
-        ref, kind = R.judge_inhouse(fmt, gtype, text, ref)
+        ref, kind = R.judge_inhouse(fmt, gtype, text, ref, reader=reader, how=how)
     except R.Mismatch as e:
         raise Violation(str(e), signature=e.signature)
     labels = ['{}/{}'.format(fmt, gtype), 'ref:' + ref.status, 'sut:' + kind]
+    if stream:
+        labels += ['rstream:' + skind, 'rapi:' + sapi]
+        if ref.status == 'valid' and kind == 'graph':
+            labels.append('valid-accepted-from-stream')
     labels.extend(sorted(ref.feats))
     labels.extend('why:' + w for w in ref.why)
     labels.extend('mut:' + m for m in case.get('mut', []))
@@ -343,6 +916,15 @@ def run_text(case):
                    nontrivial=('size-line' in ref.feats and 'edge-token' in ref.feats))
 
 
+def _maybe_stream(draw, c):
+    """A quarter of the texts reach the tree through a stream that cannot seek."""
+    x = draw(_STREAM_X)
+    if x % 4 == 0:
+        x //= 4
+        c['stream'] = [RKINDS[x % len(RKINDS)], RAPIS[(x // len(RKINDS)) % 3], 1 + (x // 64) % 9]
+    return c
+
+
 @st.composite
 def strat_text(draw):
     gtype = draw(st.sampled_from(R.TYPES))
@@ -352,7 +934,7 @@ def strat_text(draw):
         alphabet = {'kthlist': '0123456789 :\nc\t-+', 'dimacs': '0123456789 pe\ncdg\t-',
                     'matrix': '01 \n#2\t-'}[fmt]
         text = draw(st.text(alphabet=alphabet, max_size=30))
-        return {'fmt': fmt, 'gtype': gtype, 'text': text, 'mut': ['noise']}
+        return _maybe_stream(draw, {'fmt': fmt, 'gtype': gtype, 'text': text, 'mut': ['noise']})
     c = draw(strat_graph(gtype))
     if gtype == 'bipartite':
         d = R.make_desc(gtype, L=c['L'], R=c['R'], edges=c['edges'])
@@ -380,7 +962,7 @@ def strat_text(draw):
         ops.append([name, draw(st.integers(0, 400)), draw(st.integers(0, 60))])
         mut.append(name)
     text = R.mutate(text, ops)
-    return {'fmt': fmt, 'gtype': gtype, 'text': text, 'mut': mut}
+    return _maybe_stream(draw, {'fmt': fmt, 'gtype': gtype, 'text': text, 'mut': mut})
 
 
 TEXT_SNIPPETS = [
@@ -409,10 +991,14 @@ TEXT_SNIPPETS = [
 def enum_text(tier):
     for c in enum_fuzz(tier):
         yield c
+    k = 0
     for fmt, text in TEXT_SNIPPETS:
         for gtype in R.TYPES:
             if fmt in R.INHOUSE[gtype]:
                 yield {'fmt': fmt, 'gtype': gtype, 'text': text, 'mut': ['snippet']}
+                k += 1
+                yield {'fmt': fmt, 'gtype': gtype, 'text': text, 'mut': ['snippet'],
+                       'stream': [RKINDS[k % len(RKINDS)], RAPIS[(k // len(RKINDS)) % 3], 1 + k % 5]}
 
 
 # ---------------------------------------------------------------------------
@@ -717,7 +1303,27 @@ def run_roundtrip_large(case):
             raise Violation("{}: the round trip through a file changes the graph".format(what))
     finally:
         shutil.rmtree(d, ignore_errors=True)
-    return Outcome(labels=[gtype, fmt, 'edges>=4096' if len(want) >= 4096 else 'edges<4096'], nontrivial=True)
+    labels = [gtype, fmt, 'edges>=4096' if len(want) >= 4096 else 'edges<4096']
+    if case.get('stream'):
+        # the same through streams that cannot seek: a text longer than the buffers of a pipe
+        rk, wk, api = case['stream']
+        try:
+            text2 = _write_stream(wk, G, gtype, fmt)
+            K = readGraph(io.StringIO(text2), gtype, fmt)
+            if K.number_of_vertices() != G.number_of_vertices() or sorted(K.edges()) != want:
+                raise Violation("{}: written into a destination of kind '{}' ({} characters) the text is another graph "
+                                "({} vertices, {} edges)".format(what, wk, len(text2), K.number_of_vertices(),
+                                                                 K.number_of_edges()), signature='stream-large-write')
+            K = _read_stream(rk, api, gtype, fmt, text2, 5)
+        except ValueError as e:
+            raise Violation("{}: written to a destination of kind '{}' and read from a source of kind '{}' through {}: "
+                            "{}({})".format(what, wk, rk, api, type(e).__name__, e), signature='stream-large-rejected')
+        if K.number_of_vertices() != G.number_of_vertices() or sorted(K.edges()) != want:
+            raise Violation("{}: read from a source of kind '{}' through {} ({} characters) it is another graph "
+                            "({} vertices, {} edges)".format(what, rk, api, len(text2), K.number_of_vertices(),
+                                                             K.number_of_edges()), signature='stream-large-read')
+        labels += ['rstream:' + rk, 'wstream:' + wk, 'stream-text>64KiB' if len(text2) > 65536 else 'stream-text<=64KiB']
+    return Outcome(labels=labels, nontrivial=True)
 
 
 def enum_roundtrip_large(tier):
@@ -731,6 +1337,17 @@ def enum_roundtrip_large(tier):
                 if fmt == 'gml' and m > 9000:
                     continue
                 yield {'gtype': gtype, 'fmt': fmt, 'n': n if gtype != 'bipartite' else max(70, n // 2), 'm': m, 'salt': i}
+    # streams that cannot seek, with texts longer than 64 KiB (the capacity of a pipe)
+    combos = [(rk, wk) for rk in RKINDS for wk in WKINDS[1:]]
+    shapes = [('simple', 'dimacs', 300, 12000), ('digraph', 'kthlist', 300, 20000), ('bipartite', 'matrix', 200, 9000),
+              ('dag', 'dimacs', 400, 12000), ('simple', 'kthlist', 350, 9000), ('bipartite', 'kthlist', 220, 16000),
+              ('digraph', 'gml', 200, 3000)]
+    for j, (rk, wk) in enumerate(combos):
+        if tier == 'quick' and j % 4 != 1:
+            continue
+        gtype, fmt, n, m = shapes[j % len(shapes)]
+        yield {'gtype': gtype, 'fmt': fmt, 'n': n, 'm': m, 'salt': 100 + j,
+               'stream': [rk, wk, RAPIS[j % 3] if gtype != 'dag' else 'readGraph']}
 
 
 SUBCHECKS.append(
